@@ -1632,3 +1632,12 @@ mut("x-c17-epilogue-rtype-never-patched", "C17", "src/protocol/body.rs",
     """        let _ = s;
 """,
     "R17.4/epilogue-language", "every stream end header of the epilogue carries the placeholder type (header built once before the loop)", base="z5-r4")
+mut("c17-empty-subset-no-reply", "C17", "src/protocol/vars.rs",
+    """        // Reserve space for the header in out, which may already contain data
+        let start = out.len();""",
+    """        if self.is_empty() {
+            return 0;
+        }
+        // Reserve space for the header in out, which may already contain data
+        let start = out.len();""",
+    "R17.5/write_response/every-path-one-record", "a query naming only unknown variables gets no GetValuesResult at all (seed C17-j)")
